@@ -470,9 +470,9 @@ impl Serializable for Instruction {
             }
 
             // ----- debug decorators -------------------------------------------------------------
-            Self::Breakpoint => {
-                // this is a transparent instruction and will not be encoded into the library
-            }
+            // the instruction is counted among the nodes of its body and, therefore, must be encoded
+            // for the body to be decodable
+            Self::Breakpoint => OpCode::Breakpoint.write_into(target),
 
             Self::Debug(options) => {
                 OpCode::Debug.write_into(target);
